@@ -20,7 +20,7 @@ import numpy as np
 from . import core
 
 KIND = {"ninf": -np.inf, "zero": 0.0, "m1": -1.0, "inf": np.inf, "one": 1.0}
-IMAGES = ["clean", "noisy", "fixedpoint", "neighbour", "tiny"]
+IMAGES = ["clean", "noisy", "fixedpoint", "neighbour", "tiny", "wall"]
 
 
 def make_grid(fam, variant):
@@ -93,13 +93,21 @@ def scenario(rec, variant, image):
         for cidx in fam["constraints"]:
             if cidx <= dim:
                 cpos[cidx - 1] = [0.3, 0.1, 0.2][cidx - 1] * h
-    cw = None if req["width"] == "none" else 1.3 * w
+    cw = {"none": None, "given": 1.0 * w, "zero": 0.0}[req["width"]]     # "given": 2 w / h is an integer for dyadic h
     if image == "fixedpoint":
         cand = mk(cls, pos.copy(), R, cw if cw is not None else None, amps.copy())
         src = mk(truth_cls, pos, R, cw if cw is not None else h, amps)
     else:
         cand = mk(cls, cpos, R * (1 + rng.uniform(-0.1, 0.1)), cw, np.zeros(modes))
         src = truth
+    if image == "wall" and n.startswith("cart"):
+        # a droplet cut by a non-periodic wall: its centre lies outside the box, where the fit will put it
+        for a in range(dim):
+            if (a + 1) not in fam["periodic"]:
+                pos[a] = hi[a] + 0.8 * h
+                cpos[a] = hi[a] - 0.6 * h
+                break
+        truth = mk(truth_cls, pos, R, w, amps)
     if image == "tiny":
         # a candidate so small that it covers no cell centre (between support points), outside the box on periodic axes
         tp = cpos.copy()
@@ -216,6 +224,13 @@ def run_case(rec, variant, image):
         lo_, hi_ = grid.axes_bounds[ax]
         if not (lo_ - 1e-12 <= res.position[a - 1] <= hi_ + 1e-12):
             fails.append("position not wrapped into the box along a periodic axis")
+    if proxy.calls and image != "tiny":
+        # wrapping may only change coordinates along periodic axes: all others are exactly the solver's result
+        c = proxy.calls[0]
+        free_pos = [i for i in rec["free"] if i <= dim]
+        for k, i in enumerate(free_pos):
+            if i not in fam["periodic"] and res.position[i - 1] != c["x"][k]:
+                fails.append(f"coordinate {i} is not periodic but differs from the solver's result ({res.position[i - 1]!r} vs {c['x'][k]!r})")
     if field.data.tobytes() != before_img:
         fails.append("image modified")
     # ---- the fit region is the documented one: candidate's binary image dilated 1 + floor(2 w) times
@@ -230,7 +245,7 @@ def run_case(rec, variant, image):
         if int(region.sum()) != proxy.calls[0]["nres"]:
             fails.append(f"fit region has {proxy.calls[0]['nres']} cells, the documented region {int(region.sum())}")
     # ---- the documented objective over the documented region must not increase
-    if req["levels"] in ("fixed", "auto"):
+    if req["levels"] in ("fixed", "auto") and image != "tiny":
         promoted = cand0 if isinstance(cand0, DiffuseDroplet) else DiffuseDroplet.from_droplet(cand0)
         w0 = promoted.interface_width if promoted.interface_width is not None else grid.typical_discretization
         promoted = promoted.copy()
